@@ -5,16 +5,18 @@ from rawbus import Msg, Variant, split_sig, METHOD_CALL, METHOD_RETURN, ERROR, S
 
 BASIC = "ybnqiuxtdsogh"
 FIXED = "ybnqiuxtdh"
+ALLOW_FD = True      # construction programs (C02) switch this off: 'h' values are indexes assigned by the library
 
 
 def rand_sct(rnd, depth, allow_variant=True):
     r = rnd.random()
+    basic = BASIC if ALLOW_FD else BASIC.replace("h", "")
     if depth <= 0 or r < 0.45:
-        return rnd.choice(BASIC + ("v" if allow_variant else ""))
+        return rnd.choice(basic + ("v" if allow_variant else ""))
     if r < 0.65:
         return "a" + rand_sct(rnd, depth - 1)
     if r < 0.8:
-        return "a{" + rnd.choice(BASIC) + rand_sct(rnd, depth - 1) + "}"
+        return "a{" + rnd.choice(basic) + rand_sct(rnd, depth - 1) + "}"
     return "(" + "".join(rand_sct(rnd, depth - 1) for _ in range(rnd.randint(1, 3))) + ")"
 
 
@@ -121,3 +123,98 @@ def header_len(b):
     le = b[0] == ord("l")
     fl = struct.unpack_from("<I" if le else ">I", b, 12)[0]
     return (16 + fl + 7) // 8 * 8
+
+
+# ---------------------------------------------------------------------------
+# construction programs (C02): value -> token list understood by wire_h `build` and the model driver
+# ---------------------------------------------------------------------------
+def _unsigned(c, v):
+    import struct as st
+    if c == "d":
+        return st.unpack("<Q", st.pack("<d", v))[0]
+    bits = {"y": 8, "n": 16, "q": 16, "i": 32, "u": 32, "x": 64, "t": 64, "h": 32, "b": 32}[c]
+    return int(v) & ((1 << bits) - 1)
+
+
+def tokens(sig, val):
+    c = sig[0]
+    if c in "ybnqiuxtdh":
+        return ["%s%d" % (c, _unsigned(c, val))]
+    if c in "sog":
+        b = val.encode("utf-8") if isinstance(val, str) else bytes(val)
+        return [c + (b.hex() if b else "-")]
+    if c == "v":
+        return ["V" + val.sig] + tokens(val.sig, val.val) + [";"]
+    if c == "a":
+        et = sig[1:]
+        out = ["A" + et]
+        for x in val:
+            out += tokens(et, x)
+        return out + ["]"]
+    if c in "({":
+        out = [c]
+        for t, x in zip(split_sig(sig[1:-1]), val):
+            out += tokens(t, x)
+        return out + [")" if c == "(" else "}"]
+    raise ValueError(sig)
+
+
+def name_of_len(n, kind):
+    """a valid name of exactly n bytes for the given header field kind"""
+    if kind in ("iface", "err", "dest", "sender"):
+        n = max(n, 3)
+        return "a." + "b" * (n - 2)
+    if kind == "member":
+        return "M" * max(n, 1)
+    if kind in ("path", "ci"):
+        n = max(n, 1)
+        return "/" + "p" * (n - 1) if n != 2 else "/p"
+    raise ValueError(kind)
+
+
+def rand_program(rnd, max_depth=3):
+    """a well-typed construction program: (type, flags, serial, setters, body tokens) with mandatory fields mostly present"""
+    global ALLOW_FD
+    ALLOW_FD = False
+    try:
+        return _rand_program(rnd, max_depth)
+    finally:
+        ALLOW_FD = True
+
+
+def _rand_program(rnd, max_depth=3):
+    mtype = rnd.choice((1, 2, 3, 4))
+    setters = []
+    def s(k, v):
+        setters.append("%s=%s" % (k, v.encode().hex() if isinstance(v, str) else v))
+    L = lambda: rnd.choice((3, 4, 5, 6, 7, 8, 9, 12, 15, 16, 17, 24, 31, 32, 33, 40, 255))
+    if mtype in (1, 4):
+        s("path", name_of_len(L(), "path")); s("member", name_of_len(rnd.choice((1, 2, 7, 8, 255)), "member"))
+    if mtype == 4 or rnd.random() < 0.5:
+        s("iface", name_of_len(L(), "iface"))
+    if mtype == 3:
+        s("err", name_of_len(L(), "err"))
+    if mtype in (2, 3):
+        setters.append("rs=%d" % rnd.choice((1, 77, 2 ** 32 - 1)))
+    if rnd.random() < 0.6:
+        s("dest", rnd.choice((name_of_len(L(), "dest"), ":1.%d" % rnd.randint(0, 99999))))
+    if rnd.random() < 0.3:
+        s("sender", rnd.choice((name_of_len(L(), "sender"), ":1.7")))
+    if rnd.random() < 0.1:
+        s("ci", name_of_len(L(), "ci"))
+    rnd.shuffle(setters)
+    if rnd.random() < 0.2 and setters:
+        # replace / delete something already set
+        k = rnd.choice(setters).split("=")[0]
+        if k != "rs":
+            setters.append("%s=%s" % (k, rnd.choice(("~", name_of_len(L(), k).encode().hex()))))
+    nargs = rnd.choice((0, 1, 1, 2, 3, 4))
+    types = [rand_sct(rnd, rnd.randint(0, max_depth)) for _ in range(nargs)]
+    if len("".join(types)) > 200:
+        types = ["i"]
+    toks = []
+    for t in types:
+        toks += tokens(t, rand_value(rnd, t))
+    flags = rnd.choice((0, 0, 1, 2, 3, 4, 7))
+    serial = rnd.choice((1, 2, 77, 2 ** 32 - 1))
+    return "build %d %d %d %s %s" % (mtype, flags, serial, ",".join(setters) or "rs=1", " ".join(toks))
